@@ -47,6 +47,10 @@
 (*                                back with wrong fields or an error       *)
 (*   back-nil-pointer-panics      a struct holding a nil pointer or nil    *)
 (*                                interface cannot be handed back          *)
+(*   back-cyclic-value-overflows  a Go value that reaches itself kills the *)
+(*                                host process when it is handed back      *)
+(*                                (observable only once the conversion of  *)
+(*                                cyclic records itself works)             *)
 (***************************************************************************)
 EXTENDS GoInterop, Json, IOUtils, SequencesExt
 
@@ -111,11 +115,17 @@ RetErrVerdict(objs) ==
 
 Worst(a, b) == IF a = "bad" \/ b = "bad" THEN "bad" ELSE IF a # "ok" THEN a ELSE b
 
+(* a record that reaches itself comes back as a record that reaches itself: it has no finite *)
+(* unfolding, the harness does not project it and only the argument is judged               *)
 EchoVerdict(G, root, out) ==
-    CASE out[1] = "ok" -> Worst(FwdVerdict(G, root, <<"ok", out[2], out[3]>>), RetVerdict(out[3], out[4]))
+    CASE out[1] = "ok" -> (IF Cyclic(G, root) THEN FwdVerdict(G, root, <<"ok", out[2], out[3]>>)
+                           ELSE Worst(FwdVerdict(G, root, <<"ok", out[2], out[3]>>), RetVerdict(out[3], out[4])))
       [] out[1] = "reterr" -> Worst(FwdVerdict(G, root, <<"ok", out[2], out[3]>>), RetErrVerdict(out[3]))
       [] out[1] = "argerr" -> FwdVerdict(G, root, <<"err">>)
-      [] OTHER -> FwdVerdict(G, root, <<"crash">>)
+      [] OTHER -> LET f == FwdVerdict(G, root, <<"crash">>)
+                  IN IF f # "bad" THEN f
+                     ELSE IF out[1] = "crash" /\ DevOn("back-cyclic-value-overflows") /\ Cyclic(G, root)
+                     THEN "known:back-cyclic-value-overflows" ELSE "bad"
 
 (* the argument is not observable: the record must match Fill, read with the enabled deviations *)
 Echo0Verdict(G, root, out) ==
